@@ -916,7 +916,41 @@ def np_size(eng, st, args, kw, node):
     return Val.of_num(n_fresh(ctx().fresh("size"), "int"))
 
 
+def raise_here(eng, st, exc, node):
+    """The call raises `exc` on every path reaching it (e.g. a call that NumPy rejects with TypeError)."""
+    from .symexec import Exit
+    xs = st.copy()
+    ex = Exit("raise", xs, exc=exc, where=eng.where(node))
+    ex.tag = "implicit[%s]" % exc
+    eng.push_exit(ex)
+    st.pc = z3.BoolVal(False)
+
+
+def np_tril(eng, st, args, kw, node):
+    a = as_arr_or_none(args[0])
+    k = eng.as_int(args[1]) if len(args) > 1 else (eng.as_int(kw["k"]) if "k" in kw else I0)
+    if a is None or a.ndim != 2:
+        return opaque("tril")
+    return Val.of_arr(Arr(2, a.shape, lambda i, j: _ite(j <= i + k, a.elem(i, j), N(0), "num"), "num"))
+
+
+def np_eye(eng, st, args, kw, node):
+    n = eng.as_int(args[0])
+    return Val.of_arr(Arr(2, (n, n), lambda i, j: N(z3.If(i == j, z3.IntVal(1), z3.IntVal(0))), "num"))
+
+
+def np_transpose(eng, st, args, kw, node):
+    a = as_arr_or_none(args[0])
+    if a is None:
+        return opaque("transpose")
+    return Val.of_arr(transpose(a))
+
+
 def np_vstack(eng, st, args, kw, node):
+    if len(args) != 1:
+        # np.vstack takes exactly one positional argument (a sequence): TypeError in NumPy
+        raise_here(eng, st, "TypeError", node)
+        return opaque("vstack")
     t = args[0]
     if t.tup is None or len(t.tup) != 2:
         return opaque("vstack")
@@ -1262,7 +1296,10 @@ def np_delete(eng, st, args, kw, node):
     if a is None or a.ndim != 2 or ax != 0:
         return opaque("delete")
     k = eng.as_int(args[1])
-    return Val.of_arr(Arr(2, (z3.simplify(a.shape[0] - 1), a.shape[1]), lambda i, j: a.elem(z3.If(i < k, i, i + 1), j), a.dtype))
+    r = Arr(2, (z3.simplify(a.shape[0] - 1), a.shape[1]), lambda i, j: a.elem(z3.If(i < k, i, i + 1), j), a.dtype)
+    if a.dtype == "num":
+        r.rowf = lambda i: a.row(z3.If(i < k, i, i + 1))
+    return Val.of_arr(r)
 
 
 def np_squeeze(eng, st, args, kw, node):
@@ -1328,7 +1365,7 @@ NPFUNCS = {
     "concatenate": np_concatenate, "argmin": np_argmin, "argmax": np_argmax, "min": np_min, "max": np_max,
     "amin": np_min, "amax": np_max, "sum": np_sum, "unique": np_unique, "sort": np_sort, "argsort": np_argsort,
     "array": np_array, "asarray": np_array, "reshape": np_reshape, "isscalar": np_isscalar, "isreal": np_isreal,
-    "pad": np_pad, "mod": np_mod, "spacing": np_spacing, "delete": np_delete, "squeeze": np_squeeze, "argwhere": np_argwhere,
+    "pad": np_pad, "tril": np_tril, "eye": np_eye, "transpose": np_transpose, "mod": np_mod, "spacing": np_spacing, "delete": np_delete, "squeeze": np_squeeze, "argwhere": np_argwhere,
     "math.ceil": np_ceil, "math.floor": np_floor, "math.sqrt": uf1("sqrt", _sqrt_facts), "math.log": uf1("log", _log_facts),
 }
 
